@@ -377,8 +377,84 @@ class History(Part):
                 f'{worst} by {abs(mis[worst]):.3e}')
 
 
+class TimeConstants(Part):
+    """An altered time constant reaches the mass matrix entries of every state that uses it."""
+    name = 'tconst'
+    chunk = 1
+    timeout = 600.0
+    nproc = 8
+
+    def describe(self, tier):
+        return (f'{len(COEFF_CASES)} stock cases after dynamic initialisation: EVERY parameter that is the time constant of >= 1 '
+                f'state of EVERY populated model is altered (x1.5, through alter / set / Group.alter in turn); dae.Tf and TDS.Teye of '
+                f'all states using it must hold the new value')
+
+    def cases(self, tier):
+        return [dict(case=c, how=h) for c in COEFF_CASES for h in ('alter', 'set', 'galter')]
+
+    def execute(self, case):
+        from vmc import systems
+        out = Outcome()
+        try:
+            ss = systems.load_case(case['case'])
+            systems.quiet_tds(ss)
+            if not ss.PFlow.run():
+                out.obs = dict(skipped='power flow failed')
+                out.nontrivial = False
+                return out
+            ss.TDS.init()
+        except Exception as e:
+            out.obs = dict(skipped=type(e).__name__)
+            out.nontrivial = False
+            return out
+        n = 0
+        seen = set()
+        for mdl in ss.exist.tds.values():
+            if mdl.n == 0:
+                continue
+            users = {}
+            for st in mdl.states.values():
+                tc = getattr(st, 't_const', None)
+                if tc is not None and hasattr(tc, 'vin') and tc.vin is not None and tc.name in mdl.__dict__ and len(st.a) == mdl.n:
+                    users.setdefault(tc.name, []).append(st)
+            for pname, states in users.items():
+                p = mdl.__dict__[pname]
+                idx = mdl.idx.v[0]
+                new_in = float(p.vin[0]) * 1.5 + 0.01
+                try:
+                    if case['how'] == 'alter':
+                        mdl.alter(pname, idx, new_in)
+                        exp = new_in * float(p.pu_coeff[0])
+                    elif case['how'] == 'galter':
+                        ss.groups[mdl.group].alter(pname, idx, new_in)
+                        exp = new_in * float(p.pu_coeff[0])
+                    else:
+                        exp = new_in
+                        mdl.set(pname, idx, 'v', new_in)
+                except Exception as e:
+                    sig = f'alter_raises:{type(e).__name__}'
+                    if sig not in seen:
+                        seen.add(sig)
+                        out.bad(sig, f'{mdl.class_name}.{pname}: {type(e).__name__}: {e}')
+                    continue
+                n += 1
+                for k, st in enumerate(states):
+                    a = int(st.a[0])
+                    if abs(ss.dae.Tf[a] - exp) > 1e-12 * max(1, abs(exp)) or abs(ss.TDS.Teye[a, a] - exp) > 1e-12 * max(1, abs(exp)):
+                        sig = f'time_constant_not_propagated:{"first" if k == 0 else "further"}_state'
+                        if sig not in seen:
+                            seen.add(sig)
+                            out.bad(sig, f'{case["case"]}: {mdl.class_name}.{pname} altered to {exp!r} via {case["how"]}: state '
+                                    f'{st.name} has dae.Tf = {ss.dae.Tf[a]!r}, Teye = {ss.TDS.Teye[a, a]!r} '
+                                    f'({len(states)} states use this parameter)')
+        out.obs = dict(case=case['case'], how=case['how'], altered=n)
+        out.transitions = n
+        out.nontrivial = n > 0
+        return out
+
+
 def parts(tier):
-    return [Coeff(), History(tier)]
+    return [Coeff(), History(tier), TimeConstants()]
 
 
 def run(run, only=None):
